@@ -754,6 +754,7 @@ fn in_61() -> Vec<(&'static str, String)> { vec![
     i("entry", "2312251226C100,00NMSCCUSTREF//BANKREF"),
     i("full", "2312251226RDR99,99FCHKCUSTREF//BANKREF123\nSUPPLEMENTARY DETAILS"),
     i("min", "000101C0,01NMSCA"),
+    i("leap-entry", "2312290229C250,00NTRFREF//BANKREF"),
     i("max", format!("4912311231RCZ999999999999,99S999{}//{}\n{}", xs(16), xs(16), xs(34))),
 ] }
 fn in_70() -> Vec<(&'static str, String)> { vec![i("typ", "/INV/20231215/INV-12345\nPAYMENT FOR SERVICES"), i("min", "A"), i("max", format!("{}\n{}\n{}\n{}", xs(35), xs(35), xs(35), xs(35)))] }
